@@ -99,6 +99,7 @@ fn host_index(dest: &str) -> Option<usize> {
 }
 
 fn main() {
+    world::leaderless_helper_if_requested();
     world::install_panic_recorder();
     let thorough = is_thorough();
     let w = World::start(WorldOpts::default());
@@ -121,6 +122,9 @@ fn main() {
                 w.spawn_proc_os(std::ffi::OsStr::from_bytes(b"/usr/bin/vt-\xff\xfe-dir/vt-tool"), &[std::ffi::OsStr::from_bytes(b"100000")], Some(1001))
             },
         },
+        // a non-elevated caller whose main thread has exited while another thread lives on: its executable path and command
+        // line cannot be read any more, the name it gave itself ("comm") can
+        Who { label: "alice-main-thread-exited", uid: 1001, is_root: false, user: "alice", pid: w.spawn_leaderless("vt-launcher", Some(1001)) },
     ];
     let pols = policies(thorough);
     let urls: Vec<&'static str> = if thorough {
@@ -495,6 +499,38 @@ fn main() {
             }
         }
     }
+    // the same rules against a caller that merely *names itself* after the granted program (PR_SET_NAME) and whose
+    // executable can no longer be read: it is not that program
+    if replay.is_none() && !only_c03 {
+        let item = |field: &str, value: &str| -> Option<gpa_harness::key_keeper::key::AuthorizationItem> {
+            Some(
+                serde_json::from_value(json!({
+                    "defaultAccess": "deny", "mode": "enforce", "id": "self-named-family",
+                    "rules": {"privileges": [{"name": "p", "path": "/a"}], "roles": [{"name": "r", "privileges": ["p"]}],
+                              "identities": [{"name": "i", field: value}], "roleAssignments": [{"role": "r", "identities": ["i"]}]}
+                }))
+                .unwrap(),
+            )
+        };
+        w.set_rules(WS, None);
+        w.set_rules(HOSTGA, None);
+        let who = whos.iter().find(|x| x.label == "alice-main-thread-exited").unwrap();
+        for (field, value) in [("processName", "vt-launcher"), ("exePath", "vt-launcher"), ("exePath", "/usr/bin/vt-launcher")] {
+            w.set_rules(IMDS, item(field, value));
+            sport = if sport >= 29999 { 20000 } else { sport + 1 };
+            let rec = AuditRec::to(IMDS, who.uid, who.pid, false);
+            let o = run_case(&w, sport, Some(&rec), "GET", "/a/x");
+            exec_cases += 1;
+            nontrivial.insert(format!("self-named|{field}|{value}"));
+            if o.status != Ok(403) || o.bytes.iter().sum::<usize>() != 0 {
+                res.violation(
+                    "self-named-process-authorized",
+                    &format!("pid {} (main thread exited, executable unreadable) calls itself 'vt-launcher'; rules grant {field}={value}: got {:?}, {:?} bytes upstream (expected 403, nothing upstream)", who.pid, o.status, o.bytes),
+                    json!({"family": "self-named-process", "identity_by": field, "value": value}),
+                );
+            }
+        }
+    }
     res.cov("exec_between_connections_requests", exec_cases);
 
     // ---- family 6: the policy lookup fails (the key keeper shared-state task is gone: second listener of the real
@@ -575,7 +611,7 @@ fn main() {
     res.cov(
         "rule",
         format!(
-            "full product of {} destinations (incl. direct/no record, self, other) x {} callers (incl. one whose executable path and command line are not valid UTF-8) x {} rule sets (endpoint under test gets the set, the other endpoints a contrasting one) x {} URLs (incl. the two signature-exempt upload URLs) x 3 methods, one fresh TCP connection with a chosen source port and an injected kernel audit record each; plus every ordered pair of rule sets (A,B) applied A,B,A to one kept-alive attributed connection (policy in force at request time must decide); plus every ordered pair of records over uid (0,1001) x two pids x is_root (0,1) on two consecutive connections per endpoint (each connection is judged by its own record); plus a direct connection from the source port of 1 or 2 earlier attributed and served connections, 0 and 30 ms after them, per endpoint (must get 421, nothing upstream); plus a caller that makes 1 or 3 connections, exec()s another program in the same pid and connects again, under rules that grant the first or the second program by processName / exePath (each connection judged by the program running when it was made); plus 4 destinations x 2 callers x 4 URLs x 3 methods on a second listener of the real server whose key keeper handle has no actor behind it (every policy lookup fails: 500 or, for direct connections, 421, nothing upstream); non-trivial = the reference says the request must be refused (distinct (dest, caller, rule set, url) counted)",
+            "full product of {} destinations (incl. direct/no record, self, other) x {} callers (incl. one whose executable path and command line are not valid UTF-8 and one whose main thread has exited: executable and command line unreadable, self-chosen name readable) x {} rule sets (endpoint under test gets the set, the other endpoints a contrasting one) x {} URLs (incl. the two signature-exempt upload URLs) x 3 methods, one fresh TCP connection with a chosen source port and an injected kernel audit record each; plus every ordered pair of rule sets (A,B) applied A,B,A to one kept-alive attributed connection (policy in force at request time must decide); plus every ordered pair of records over uid (0,1001) x two pids x is_root (0,1) on two consecutive connections per endpoint (each connection is judged by its own record); plus a direct connection from the source port of 1 or 2 earlier attributed and served connections, 0 and 30 ms after them, per endpoint (must get 421, nothing upstream); plus a caller that makes 1 or 3 connections, exec()s another program in the same pid and connects again, under rules that grant the first or the second program by processName / exePath (each connection judged by the program running when it was made); plus 4 destinations x 2 callers x 4 URLs x 3 methods on a second listener of the real server whose key keeper handle has no actor behind it (every policy lookup fails: 500 or, for direct connections, 421, nothing upstream); non-trivial = the reference says the request must be refused (distinct (dest, caller, rule set, url) counted)",
             dests.len(), whos.len(), pols.len(), urls.len()
         ),
     );
